@@ -338,22 +338,44 @@ def run(chk):
         r, pp, s, tp = [p["n"] for p in g.params]
         mc = calls(gps, "LagrangeHalfCPolynomialAddMul")
         check_component_coverage(chk, v, g, mc, "tLweFFTAddMulRTo accumulates all k+1 components", vn)
-        # rows of block p start at p*l in both representations
-        for iname, arrname in (("init_TGswSample", "all_sample"), ):
-            h = v.fn(iname)
-            hps, _ = summ.pieces(v, h, hooks=NOINLINE)
-            st = [p for p in hps if p["kind"] == "store" and p["loops"]]
-            ok = len(st) == 1 and st[0]["val"][0] == "addr" and st[0]["val"][1][0] == "idx" and \
-                st[0]["val"][1][2] == sym.mul(st[0]["loops"][0]["var"], P(h.params[1]["n"], "l"))
-            chk.require(ok, "R1", "TGSW block p is rows [p*l, (p+1)*l) (%s)" % iname, where=h.where, ok="bloc_sample[p] = all_sample + p*l",
-                        bad=[summ.show_piece(p)[:100] for p in st], variant=vn)
-        ctor = [c for c in v.defined() if c.get("record") == "TGswSampleFFT" and c.get("kind") == "ctor" and not c.get("implicit")][0]
-        cps, _ = summ.pieces(v, ctor, hooks=NOINLINE)
-        st = [p for p in cps if p["kind"] == "store" and p["loops"]]
-        ok = len(st) == 1 and st[0]["val"][0] == "addr" and st[0]["val"][1][0] == "idx" and \
-            sym.show(st[0]["val"][1][2]).replace("this->", "") in ("l*%s" % sym.show(st[0]["loops"][0]["var"]), "%s*l" % sym.show(st[0]["loops"][0]["var"]))
-        chk.require(ok, "R1", "TGSW-FFT block p is rows [p*l, (p+1)*l) (constructor)", where=ctor.where, ok="sample[p] = all_samples + p*l",
-                    bad=[summ.show_piece(p)[:100] for p in st], variant=vn)
+        # rows of block p start at p*l in both representations: the block table is a pointer table with stride l over the row
+        # array, and its k+1 entries are all filled (sa/tables.py: any loop structure, walking pointers, either direction)
+        from sa import tables, concrete
+        from sa.secretflow import eval_term as _ev
+        ctorF = [c for c in v.defined() if c.get("record") == "TGswSampleFFT" and c.get("kind") == "ctor" and not c.get("implicit")][0]
+        for fn_, obj_, A_, B_, what, label in (
+                (v.fn("init_TGswSample"), sym.sym(v.fn("init_TGswSample").params[0]["n"]), "bloc_sample", "all_sample",
+                 "TGSW block p is rows [p*l, (p+1)*l) (init_TGswSample)", "bloc_sample[p] = all_sample + p*l"),
+                (ctorF, sym.sym("this"), "sample", "all_samples", "TGSW-FFT block p is rows [p*l, (p+1)*l) (constructor)", "sample[p] = all_samples + p*l")):
+            nps, fvals, norm = tables.normalised(v, fn_, obj_)
+            B, c, sts = tables.table(nps, obj_, A_)
+            problems = []
+            if B is None:
+                problems.append(c)
+            else:
+                par_ = next((sym.sym(q["n"]) for q in fn_.params if "TGswParams" in q["t"]), None)
+                Lt = norm(P(par_[1], "l")) if par_ is not None else None
+                Kt = norm(sym.arrow(P(par_[1], "tlwe_params"), "k")) if par_ is not None else None
+                cs = norm(c)
+                if B != B_ or (cs != Lt and sym.show(cs).replace("this->", "") != "l"):
+                    problems.append("%s[p] = %s + (%s)*p, expected %s + l*p" % (A_, B, sym.show(cs), B_))
+                else:
+                    dims = sorted({a_ for p_ in sts for l_ in p_["loops"] for t_ in (l_["lo"], l_["hi"]) for a_ in sym.atoms(t_)
+                                   if a_[0] in ("fld", "sym") and a_ not in {l2["var"] for l2 in p_["loops"]}}, key=repr)
+                    kdim = [d_ for d_ in dims if sym.show(d_).endswith("k")]
+                    if len(kdim) != 1:
+                        chk.broken("%s: block count not expressed through k (%s)" % (fn_.name, [sym.show(d_) for d_ in dims]))
+                    for kv in (1, 2, 3):
+                        env0 = {d_: 2 for d_ in dims}
+                        env0[kdim[0]] = kv
+                        try:
+                            xs = tables.visited(sts, env0)
+                        except concrete.NotEvaluable as e:
+                            chk.broken("%s: %s" % (fn_.name, e))
+                        if xs != list(range(kv + 1)):
+                            problems.append("with k = %d the statements fill entries %s of %s, expected all k+1 = %d blocks once" % (kv, xs[:6], A_, kv + 1))
+                            break
+            chk.require(not problems, "R1", what, where=fn_.where, ok=label + " for every block p <= k", bad="; ".join(problems)[:400], variant=vn)
         ah = v.fn("tGswFFTAddH")
         aps, _ = summ.pieces(v, ah, hooks=NOINLINE)
         ac = calls(aps, "LagrangeHalfCPolynomialAddTorusConstant")
